@@ -3,7 +3,7 @@ is classified by the steps its arguments take from the caller's own data: steps 
 component hierarchy, equation ASTs) need no guard; steps that follow a *reference* (units by name, an import to another
 model, a variable equivalence) can revisit an object, so the call must be dominated by a visited/history test whose
 container is handed on."""
-from facts import walk, render, is_call
+from facts import role, walk, render, is_call
 from engines import ff, nth_arg, receiver
 
 # calls that follow a reference which input can make cyclic -> kind
@@ -259,3 +259,52 @@ def rule_stack_discipline(F, rep, rid, pred, floor, where_txt):
             rep.check(ok, rid, key, g.where(c), '%s: after `%s` some path reaches the exit without %s.pop_back() (%s)' % (g.short, render(c)[:50], name, detail), 'popped on every path (%s)' % detail)
     if n < floor:
         raise AnalysisBroken('%s: only %d pushes on shared stacks found in %s (%d confirmed)' % (rid, n, where_txt, floor))
+
+
+WALK_SEARCHES = {'voiFirstOccurrence': 'a search: returns at the first occurrence', 'component': 'lookup', 'takeComponent': 'lookup'}
+
+
+def tree_walkers(F):
+    """Functions that walk the component tree: a loop over componentCount() whose body calls the function again (directly or mutually).
+    Yields (func, loop, recursive calls)."""
+    for g in F.funcs.values():
+        if '/src/' not in g.file:
+            continue
+        for loop in g.walk():
+            if loop.get('k') != 'For' or 'omponentCount()' not in render(role(loop, 'cond')) or g.enclosing_lambda(loop) is not None:
+                continue
+            rec = [c for c in walk(role(loop, 'body')) if c.get('k') == 'Call' and not c.get('opc') and any(ck == g.key or g.key in F.reach([ck]) for ck in F.callee_keys(c))]
+            if rec:
+                yield g, loop, rec
+
+
+def rule_walkers(F, rep, rid, names, floor, what):
+    """Visit-everything walks: for the named non-verdict walkers, the descent into every child component depends on nothing but the loop:
+    no branch around the loop or the recursive call, no return/continue/break before the recursive call."""
+    from facts import AnalysisBroken
+    from engines import enclosing_conditions
+    rep.rule(rid, 'the walks over the component tree that must see every component (%s) descend into every child: the loop over the children and the recursive call in it are unconditional, and no return/continue/break can be taken before the descent '
+                  '(pruning a branch - e.g. below an imported or an empty component - silently skips everything encapsulated under it)' % what)
+    n = 0
+    seen = set()
+    for g, loop, rec in tree_walkers(F):
+        if g.name not in names or g.j.get('ret') == 'bool' or g.name in WALK_SEARCHES:
+            continue
+        seen.add(g.name)
+        n += 1
+        first = min(c.get('l', 0) for c in rec)
+        outer = [render(cnd)[:50] for cnd, br, st in enclosing_conditions(g, loop)]
+        inner = [render(cnd)[:50] for c in rec for cnd, br, st in enclosing_conditions(g, c) if any(a is loop for a in g.ancestors(st))]
+        exits = [r for r in g.walk() if r.get('k') in ('Return', 'Continue', 'Break') and g.enclosing_lambda(r) is None and r.get('l', 0) < first
+                 and (r.get('k') == 'Return' or any(a is loop for a in g.ancestors(r)))]
+        why = []
+        if outer:
+            why.append('the loop over the children runs only under `%s`' % '`, `'.join(outer))
+        if inner:
+            why.append('the recursive call is made only under `%s`' % '`, `'.join(inner))
+        if exits:
+            why.append('a `%s` at line %s can be taken before the descent' % (exits[0]['k'].lower(), exits[0].get('l')))
+        rep.check(not why, rid, '%s|descends into every child' % g.short.split('::')[-1], g.where(loop), '%s: %s' % (g.short, '; '.join(why)), 'unconditional descent')
+    missing = set(names) - seen
+    if n < floor or missing:
+        raise AnalysisBroken('%s: tree walkers %s not found (found %d)' % (rid, sorted(missing), n))
